@@ -22,8 +22,47 @@ CASE_TIMEOUT = 100
 MAX_INCONCLUSIVE_FRACTION = 0.3
 
 
+def nest_with_windows(rng):
+    """appended stream: Nest / Repeat / Merge around blocks with transition or window factors (preambles inside
+    combinators), explicit alignments — shapes the reference model leaves undecided but that must not crash"""
+    from vlib import gen
+    spec = {"factors": {}, "order": [], "block": None}
+    for i in range(3):
+        spec["factors"]["F%d" % i] = gen._basic(rng, i, False, nl=2 if i else rng.choice([2, 3]))
+        spec["order"].append("F%d" % i)
+    gen.add_derived(rng, spec, "T0", rng.choice(["transition", "transition", "window"]), deps=[rng.choice(["F1", "F2"])], else_level=None)
+    if S.stride(spec, "T0") > 1:
+        spec["factors"]["T0"]["win"][2] = 1
+
+    def cross(design, crossing, cons):
+        return {"op": "cross", "design": design, "crossings": [crossing], "cons": cons, "rcc": rng.random() < 0.5,
+                "mode": "weight", "align": "equal", "ctor": "CrossBlock"}
+    dep = spec["factors"]["T0"]["deps"][0]
+    inner_design = [dep, "T0"] + ([("F2" if dep == "F1" else "F1")] if rng.random() < 0.5 else [])
+    icross = rng.choice([[dep], ["T0"], [dep, "T0"]])
+    icons = [gen.gen_constraint(rng, spec, inner_design, 4, types=gen.RUN_TYPES + ["Pin"])] if rng.random() < 0.4 else []
+    inner = cross(inner_design, icross, icons)
+    outer = cross(["F0"], ["F0"], [])
+    shape = rng.choice(["nest", "nest", "nest_rev", "repeat", "merge"])
+    al = rng.choice([None, None, "post", "parallel", "equal"])
+    if shape == "nest":
+        spec["block"] = {"op": "nest", "outer": outer, "inner": inner, "cons": [], "align": al}
+    elif shape == "nest_rev":
+        spec["block"] = {"op": "nest", "outer": inner, "inner": outer, "cons": [], "align": al}
+    elif shape == "repeat":
+        spec["block"] = {"op": "repeat", "block": inner, "cons": [{"type": "MinimumTrials", "trials": rng.randint(4, 9)}]}
+    else:
+        spec["block"] = {"op": "merge", "blocks": [inner, cross(["F0"] + inner_design, ["F0"], [])], "cons": [],
+                         "mode": rng.choice(["repeat", "weight"]), "align": al}
+    return spec
+
+
 def cases(tier, seed):
-    return D.spec_cases(tier, seed, None, 440, 3000, "c08")
+    out = D.spec_cases(tier, seed, None, 440, 3000, "c08")
+    for i in range(600 if tier == "thorough" else 80):
+        rng = random.Random("c08w/%s/%d" % (seed, i))
+        out.append({"cls": "combinator-with-window", "spec": nest_with_windows(rng)})
+    return out
 
 
 def run_case(case):
